@@ -212,7 +212,7 @@ class OpGen:
             others = [t for t in tags if t not in anc]
             if not others:
                 return self.random_op(rng, multi)
-            op = [2, s, rng.choice(others)]
+            op = [2, s, rng.choice(others), rng.choice([0, 0, 1, 2, 3])]
         elif c == 3:
             s = rng.choice(tags)
             op = [3, s, pick_args(s)]
@@ -312,6 +312,8 @@ class OpGen:
             for o in tags:
                 if o not in anc:
                     ops.append([2, s, o])
+                    if len(r.K[o]) >= 2:
+                        ops.append([2, s, o, 1]); ops.append([2, s, o, 2])
             ops.append([11, s, 0]); ops.append([11, s, 1]); ops.append([12, s, "gS"]); ops.append([13, s])
             if r.kind[s] == 0:
                 ops.append([9, s])
